@@ -8,7 +8,7 @@
 (*         some of length 4) on four nodes; each step offers a random        *)
 (*         handful of saves so that deletes/gc/reload/tick keep their weight *)
 EXTENDS RouteTable, Json, IOUtils, Randomization
-VARIABLES hist, ga
+VARIABLES hist, ga, pre   \* pre: the model state before the last step (edges mode: one history per (source state, step))
 
 GNode == {1, 2, 3, 4}
 SmallPaths == {<<1, 2>>, <<1, 3>>, <<2, 1, 3>>, <<1, 1, 2>>, <<3, 1, 3>>, <<2, 3>>, <<1, 4, 2>>}
@@ -17,13 +17,13 @@ AllPaths == UNION {[1..k -> GNode] : k \in 2..3}
 
 Depth == IF "VERIF_DEPTH" \in DOMAIN IOEnv THEN atoi(IOEnv.VERIF_DEPTH) ELSE 5
 
-GInit == Init /\ hist = <<>> /\ ga \in {1, 2}
+GInit == Init /\ hist = <<>> /\ ga \in {1, 2} /\ pre = <<>>
 
 GSave(p) == /\ T' = SaveIn(T, p, ga)
             /\ dead' = dead \ {p}
             /\ last' = [op |-> "save", p |-> p]
 
-Step == hist' = Append(hist, last') /\ UNCHANGED ga
+Step == hist' = Append(hist, last') /\ UNCHANGED ga /\ pre' = <<T, dead>>
 
 \* edges mode: over the cfg's PathU, time bounded
 ENext == /\ Len(hist) < Depth
@@ -33,8 +33,8 @@ ENext == /\ Len(hist) < Depth
             \/ Reload
             \/ Tick
          /\ Step
-ESpec == GInit /\ [][ENext]_<<vars, hist, ga>>
-EdgeView == <<T, dead, last, ga>>
+ESpec == GInit /\ [][ENext]_<<vars, hist, ga, pre>>
+EdgeView == <<pre, T, dead, last, ga>>
 
 \* simulate mode
 SNext == /\ Len(hist) < Depth
@@ -44,7 +44,7 @@ SNext == /\ Len(hist) < Depth
             \/ Reload
             \/ Tick
          /\ Step
-SSpec == GInit /\ [][SNext]_<<vars, hist, ga>>
+SSpec == GInit /\ [][SNext]_<<vars, hist, ga, pre>>
 
 Scn == [par |-> [kind |-> "table", alpha |-> ga, maxttl |-> MaxTTL], ops |-> hist]
 EmitAll  == hist # <<>> => PrintT(<<"SCN", ToJson(Scn)>>)
